@@ -15,6 +15,9 @@ mod c19;
 mod c19_consts;
 mod mapper;
 mod physmem;
+mod c08;
+mod c14;
+mod c15;
 
 use gen::Rng;
 use out::Out;
@@ -92,6 +95,9 @@ fn main() {
             mapper::run_corpus_dir(&mut out, &format!("{}/mapper", corpus), mask);
             mapper::run_histories(&mut out, &mut rng, tier, mask)
         }
+        "C08" => c08::run(&mut out, &mut rng, tier),
+        "C14" => c14::run(&mut out, &mut rng, tier),
+        "C15" => c15::run(&mut out, &mut rng, tier),
         _ => {
             eprintln!("unknown property {}", prop);
             std::process::exit(2);
